@@ -67,7 +67,9 @@ type Pool struct {
 	OnStop func(c Chunk, code int, at JournalEntry)
 	// OnDeath is called when a child died.
 	OnDeath func(c Chunk, d Death)
-	seq     int64
+	// Progress, when set, is called after every child with its chunk, exit code and wall time.
+	Progress func(c Chunk, code int, wall time.Duration, at JournalEntry)
+	seq      int64
 }
 
 // Run executes all chunks, restarting a chunk after the case that stopped or killed its child.
@@ -175,6 +177,7 @@ func (p *Pool) runOne(c Chunk) *Chunk {
 			}
 		}
 	}()
+	t0 := time.Now()
 	err := cmd.Wait()
 	close(done)
 	ef.Close()
@@ -214,9 +217,15 @@ func (p *Pool) runOne(c Chunk) *Chunk {
 		f.Close()
 	}
 	if code == 0 && finished {
+		if p.Progress != nil {
+			p.Progress(c, 0, time.Since(t0), JournalEntry{})
+		}
 		return nil
 	}
 	at := readJournal(jPath)
+	if p.Progress != nil {
+		p.Progress(c, code, time.Since(t0), at)
+	}
 	if code == ExitWatchdog || code == ExitMemory {
 		p.OnStop(c, code, at)
 	} else {
